@@ -1,6 +1,1571 @@
 import GoRes.Model.Mux
-/-! Helper lemmas for the mux model (C06). -/
+/-! Helper lemmas for the mux model (C06).
+
+Everything here is about `mount = none` (a single mux, as in `Props/C06.lean`).
+The trie edges are handled uniformly through `child` / `setChild`, and `fetch`
+is rephrased as `classify` (the per-token checks) followed by the recursive
+call (`fetch_none_cons`). -/
 namespace GoRes.Mux
 open GoRes Ch
+
+/-! ## accessors -/
+@[simp] theorem Node.hs_setHs (n : Node) (h) : (n.setHs h).hs = h := by cases n; rfl
+@[simp] theorem Node.params_setHs (n : Node) (h) : (n.setHs h).params = n.params := by cases n; rfl
+@[simp] theorem Node.listeners_setHs (n : Node) (h) : (n.setHs h).listeners = n.listeners := by cases n; rfl
+@[simp] theorem Node.mounted_setHs (n : Node) (h) : (n.setHs h).mounted = n.mounted := by cases n; rfl
+@[simp] theorem Node.lits_setHs (n : Node) (h) : (n.setHs h).lits = n.lits := by cases n; rfl
+@[simp] theorem Node.param_setHs (n : Node) (h) : (n.setHs h).param = n.param := by cases n; rfl
+@[simp] theorem Node.wild_setHs (n : Node) (h) : (n.setHs h).wild = n.wild := by cases n; rfl
+@[simp] theorem Node.hs_setParams (n : Node) (p) : (n.setParams p).hs = n.hs := by cases n; rfl
+@[simp] theorem Node.params_setParams (n : Node) (p) : (n.setParams p).params = p := by cases n; rfl
+@[simp] theorem Node.listeners_setParams (n : Node) (p) : (n.setParams p).listeners = n.listeners := by cases n; rfl
+@[simp] theorem Node.mounted_setParams (n : Node) (p) : (n.setParams p).mounted = n.mounted := by cases n; rfl
+@[simp] theorem Node.lits_setParams (n : Node) (p) : (n.setParams p).lits = n.lits := by cases n; rfl
+@[simp] theorem Node.param_setParams (n : Node) (p) : (n.setParams p).param = n.param := by cases n; rfl
+@[simp] theorem Node.wild_setParams (n : Node) (p) : (n.setParams p).wild = n.wild := by cases n; rfl
+@[simp] theorem Node.hs_setMounted (n : Node) (b) : (n.setMounted b).hs = n.hs := by cases n; rfl
+@[simp] theorem Node.params_setMounted (n : Node) (b) : (n.setMounted b).params = n.params := by cases n; rfl
+@[simp] theorem Node.listeners_setMounted (n : Node) (b) : (n.setMounted b).listeners = n.listeners := by cases n; rfl
+@[simp] theorem Node.mounted_setMounted (n : Node) (b) : (n.setMounted b).mounted = b := by cases n; rfl
+@[simp] theorem Node.lits_setMounted (n : Node) (b) : (n.setMounted b).lits = n.lits := by cases n; rfl
+@[simp] theorem Node.param_setMounted (n : Node) (b) : (n.setMounted b).param = n.param := by cases n; rfl
+@[simp] theorem Node.wild_setMounted (n : Node) (b) : (n.setMounted b).wild = n.wild := by cases n; rfl
+@[simp] theorem Node.hs_setLits (n : Node) (ls) : (n.setLits ls).hs = n.hs := by cases n; rfl
+@[simp] theorem Node.params_setLits (n : Node) (ls) : (n.setLits ls).params = n.params := by cases n; rfl
+@[simp] theorem Node.listeners_setLits (n : Node) (ls) : (n.setLits ls).listeners = n.listeners := by cases n; rfl
+@[simp] theorem Node.mounted_setLits (n : Node) (ls) : (n.setLits ls).mounted = n.mounted := by cases n; rfl
+@[simp] theorem Node.lits_setLits (n : Node) (ls) : (n.setLits ls).lits = ls := by cases n; rfl
+@[simp] theorem Node.param_setLits (n : Node) (ls) : (n.setLits ls).param = n.param := by cases n; rfl
+@[simp] theorem Node.wild_setLits (n : Node) (ls) : (n.setLits ls).wild = n.wild := by cases n; rfl
+@[simp] theorem Node.hs_setParam (n : Node) (pa) : (n.setParam pa).hs = n.hs := by cases n; rfl
+@[simp] theorem Node.params_setParam (n : Node) (pa) : (n.setParam pa).params = n.params := by cases n; rfl
+@[simp] theorem Node.listeners_setParam (n : Node) (pa) : (n.setParam pa).listeners = n.listeners := by cases n; rfl
+@[simp] theorem Node.mounted_setParam (n : Node) (pa) : (n.setParam pa).mounted = n.mounted := by cases n; rfl
+@[simp] theorem Node.lits_setParam (n : Node) (pa) : (n.setParam pa).lits = n.lits := by cases n; rfl
+@[simp] theorem Node.param_setParam (n : Node) (pa) : (n.setParam pa).param = pa := by cases n; rfl
+@[simp] theorem Node.wild_setParam (n : Node) (pa) : (n.setParam pa).wild = n.wild := by cases n; rfl
+@[simp] theorem Node.hs_setWild (n : Node) (w) : (n.setWild w).hs = n.hs := by cases n; rfl
+@[simp] theorem Node.params_setWild (n : Node) (w) : (n.setWild w).params = n.params := by cases n; rfl
+@[simp] theorem Node.listeners_setWild (n : Node) (w) : (n.setWild w).listeners = n.listeners := by cases n; rfl
+@[simp] theorem Node.mounted_setWild (n : Node) (w) : (n.setWild w).mounted = n.mounted := by cases n; rfl
+@[simp] theorem Node.lits_setWild (n : Node) (w) : (n.setWild w).lits = n.lits := by cases n; rfl
+@[simp] theorem Node.param_setWild (n : Node) (w) : (n.setWild w).param = n.param := by cases n; rfl
+@[simp] theorem Node.wild_setWild (n : Node) (w) : (n.setWild w).wild = w := by cases n; rfl
+@[simp] theorem Node.hs_addListener (n : Node) (a) : (n.addListener a).hs = n.hs := by cases n; rfl
+@[simp] theorem Node.params_addListener (n : Node) (a) : (n.addListener a).params = n.params := by cases n; rfl
+@[simp] theorem Node.listeners_addListener (n : Node) (a) : (n.addListener a).listeners = n.listeners ++ [a] := by cases n; rfl
+@[simp] theorem Node.mounted_addListener (n : Node) (a) : (n.addListener a).mounted = n.mounted := by cases n; rfl
+@[simp] theorem Node.lits_addListener (n : Node) (a) : (n.addListener a).lits = n.lits := by cases n; rfl
+@[simp] theorem Node.param_addListener (n : Node) (a) : (n.addListener a).param = n.param := by cases n; rfl
+@[simp] theorem Node.wild_addListener (n : Node) (a) : (n.addListener a).wild = n.wild := by cases n; rfl
+
+@[simp] theorem Node.hs_empty : Node.empty.hs = none := rfl
+@[simp] theorem Node.params_empty : Node.empty.params = [] := rfl
+@[simp] theorem Node.listeners_empty : Node.empty.listeners = [] := rfl
+@[simp] theorem Node.mounted_empty : Node.empty.mounted = false := rfl
+@[simp] theorem Node.lits_empty : Node.empty.lits = [] := rfl
+@[simp] theorem Node.param_empty : Node.empty.param = none := rfl
+@[simp] theorem Node.wild_empty : Node.empty.wild = none := rfl
+
+/-! ## literal children -/
+
+@[simp] theorem lookupLit_nil (s : Str) : lookupLit [] s = none := rfl
+
+theorem lookupLit_setLit_self (l : List (Str × Node)) (s : Str) (n : Node) :
+    lookupLit (setLit l s n) s = some n := by
+  induction l with
+  | nil => simp [setLit, lookupLit]
+  | cons a l ih =>
+    obtain ⟨k, m⟩ := a
+    by_cases h : k = s
+    · simp [setLit, lookupLit, h]
+    · simp [setLit, lookupLit, h, ih]
+
+theorem lookupLit_setLit_ne (l : List (Str × Node)) (s s' : Str) (n : Node) (hne : s' ≠ s) :
+    lookupLit (setLit l s n) s' = lookupLit l s' := by
+  induction l with
+  | nil => simp [setLit, lookupLit]; intro h; exact absurd h.symm hne
+  | cons a l ih =>
+    obtain ⟨k, m⟩ := a
+    by_cases h : k = s
+    · subst h
+      have : ¬ k = s' := fun h => hne h.symm
+      simp [setLit, lookupLit, this]
+    · simp [setLit, lookupLit, h, ih]
+
+/-! ## uniform edges -/
+
+/-- the child of `n` along trie edge `e` -/
+def child (n : Node) : Elem → Option Node
+  | .lit s => lookupLit n.lits s
+  | .param => n.param
+  | .wild => n.wild
+
+/-- replace/create the child of `n` along edge `e` -/
+def setChild (n : Node) (e : Elem) (c : Node) : Node :=
+  match e with
+  | .lit s => n.setLits (setLit n.lits s c)
+  | .param => n.setParam (some c)
+  | .wild => n.setWild (some c)
+
+@[simp] theorem child_setChild_self (n : Node) (e : Elem) (c : Node) : child (setChild n e c) e = some c := by
+  cases e <;> simp [child, setChild, lookupLit_setLit_self]
+
+theorem child_setChild_ne (n : Node) (e e' : Elem) (c : Node) (hne : e' ≠ e) :
+    child (setChild n e c) e' = child n e' := by
+  cases e <;> cases e' <;> simp_all [child, setChild]
+  rename_i s s'
+  exact lookupLit_setLit_ne _ _ _ _ hne
+
+@[simp] theorem hs_setChild (n : Node) (e : Elem) (c : Node) : (setChild n e c).hs = n.hs := by
+  cases e <;> simp [setChild]
+@[simp] theorem params_setChild (n : Node) (e : Elem) (c : Node) : (setChild n e c).params = n.params := by
+  cases e <;> simp [setChild]
+@[simp] theorem listeners_setChild (n : Node) (e : Elem) (c : Node) : (setChild n e c).listeners = n.listeners := by
+  cases e <;> simp [setChild]
+@[simp] theorem mounted_setChild (n : Node) (e : Elem) (c : Node) : (setChild n e c).mounted = n.mounted := by
+  cases e <;> simp [setChild]
+
+@[simp] theorem child_empty (e : Elem) : child Node.empty e = none := by
+  cases e <;> rfl
+
+theorem getAt_cons (n : Node) (e : Elem) (r : List Elem) : getAt n (e :: r) = (child n e).bind (getAt · r) := by
+  cases e <;> rfl
+
+@[simp] theorem getAt_nil (n : Node) : getAt n [] = some n := by
+  cases n; rfl
+
+/-! ## `fetch` without mount, one token at a time -/
+
+/-- the per-token checks of `fetch`: the edge to follow and the extended parameter list,
+or the panic -/
+def classify (t : Str) (rest : List Str) (params : List PathParam) (idx : Nat) :
+    Except FetchErr (Elem × List PathParam) :=
+  match t with
+  | [] => .error .invalid
+  | c :: name =>
+    if c = dollar ∨ c = star then
+      if (name.isEmpty) != (c = star) then .error .invalid
+      else if c = dollar ∧ params.any (·.name = name) then .error .dupParam
+      else .ok (.param, if c = dollar then params ++ [⟨name, idx⟩] else params)
+    else if c = gt then
+      if !name.isEmpty ∨ !rest.isEmpty then .error .invalid
+      else .ok (.wild, params)
+    else .ok (.lit t, params)
+
+theorem fetch_none_nil {α : Type} (k : Node → Bool → List PathParam → Nat → Node × Except FetchErr α)
+    (n : Node) (i mi : Nat) (ps : List PathParam) (fr : Bool) :
+    fetch none k n [] i mi ps fr = k n fr ps mi := rfl
+
+theorem fetch_none_cons {α : Type} (k : Node → Bool → List PathParam → Nat → Node × Except FetchErr α)
+    (n : Node) (t : Str) (rest : List Str) (i mi : Nat) (ps : List PathParam) (fr : Bool) :
+    fetch none k n (t :: rest) i mi ps fr =
+      match classify t rest ps (i - (if n.mounted then i else mi)) with
+      | .error e => (n, .error e)
+      | .ok (e, ps') =>
+        let r := fetch none k ((child n e).getD Node.empty) rest (i + 1) (if n.mounted then i else mi) ps'
+          (child n e).isNone
+        (setChild n e r.1, r.2) := by
+  cases t with
+  | nil => simp [fetch, classify]
+  | cons c name =>
+    simp only [fetch, classify]
+    by_cases h1 : c = dollar ∨ c = star
+    · simp only [h1, if_true]
+      split
+      · rfl
+      · split
+        · rfl
+        · simp only [child, setChild]
+          cases hp : n.param <;> simp
+    · simp only [h1, if_false]
+      by_cases h2 : c = gt
+      · simp only [h2, if_true]
+        split
+        · rfl
+        · simp only [child, setChild]
+          cases hp : n.wild <;> simp
+      · simp only [h2, if_false]
+        simp only [child, setChild]
+        cases hp : lookupLit n.lits (c :: name) <;> simp
+
+/-- the parameter contributed by one pattern token -/
+def tokParams (t : Str) (idx : Nat) : List PathParam :=
+  match t with
+  | [] => []
+  | c :: name => if c = dollar then [⟨name, idx⟩] else []
+
+theorem classify_ok {t rest ps idx e ps'} (h : classify t rest ps idx = .ok (e, ps')) :
+    e = elemOf t ∧ (e = .wild → rest = []) ∧ ps' = ps ++ tokParams t idx ∧
+      (∀ pp ∈ tokParams t idx, ∀ q ∈ ps, q.name ≠ pp.name) := by
+  cases t with
+  | nil => simp [classify] at h
+  | cons c name =>
+    simp only [classify] at h
+    by_cases h1 : c = dollar ∨ c = star
+    · simp only [h1, if_true] at h
+      split at h
+      · simp at h
+      · split at h
+        · simp at h
+        · rename_i hd
+          simp only [Except.ok.injEq, Prod.mk.injEq] at h
+          obtain ⟨rfl, rfl⟩ := h
+          refine ⟨by simp [elemOf, h1], by simp, ?_, ?_⟩
+          · by_cases hc : c = dollar <;> simp [tokParams, hc]
+          · intro pp hpp q hq
+            by_cases hc : c = dollar
+            · simp [tokParams, hc] at hpp
+              subst hpp
+              simp only [hc, true_and, List.any_eq_true, decide_eq_true_eq, not_exists, not_and] at hd
+              exact hd q hq
+            · simp [tokParams, hc] at hpp
+    · simp only [h1, if_false] at h
+      have hnd : c ≠ dollar := fun hc => h1 (Or.inl hc)
+      by_cases h2 : c = gt
+      · simp only [h2, if_true] at h
+        split at h
+        · simp at h
+        · rename_i hr
+          simp only [Except.ok.injEq, Prod.mk.injEq] at h
+          obtain ⟨rfl, rfl⟩ := h
+          refine ⟨?_, ?_, ?_, ?_⟩
+          · simp [elemOf, h2]; decide
+          · intro _; simp at hr; exact hr.2
+          · simp [tokParams, hnd]
+          · simp [tokParams, hnd]
+      · simp only [h2, if_false, Except.ok.injEq, Prod.mk.injEq] at h
+        obtain ⟨rfl, rfl⟩ := h
+        refine ⟨by simp [elemOf, h1, h2], by simp, by simp [tokParams, hnd], by simp [tokParams, hnd]⟩
+
+/-! ## statement-level notions (the same recursions as in `Props/C06.lean`) -/
+
+/-- same as `Props.C06.ElemsMatch` -/
+def EMatch : List Elem → List Str → Prop
+  | [], [] => True
+  | [.wild], _ :: _ => True
+  | .lit s :: ps, t :: ts => s = t ∧ EMatch ps ts
+  | .param :: ps, _ :: ts => EMatch ps ts
+  | _, _ => False
+
+def eCls : Elem → Nat
+  | .lit _ => 2
+  | .param => 1
+  | .wild => 0
+
+/-- same as `Props.C06.MoreSpecific` -/
+def MoreSpec : List Elem → List Elem → Prop
+  | a :: as, b :: bs => eCls a > eCls b ∨ (eCls a = eCls b ∧ MoreSpec as bs)
+  | _, _ => False
+
+/-- a full wildcard occurs at most as the last edge -/
+def WildLast : List Elem → Prop
+  | [] => True
+  | e :: r => (e = .wild → r = []) ∧ WildLast r
+
+theorem EMatch_nil_right (ps : List Elem) : EMatch ps [] ↔ ps = [] := by
+  cases ps with
+  | nil => simp [EMatch]
+  | cons e r => cases e <;> simp [EMatch]
+
+theorem EMatch_nil_left (ts : List Str) : EMatch [] ts ↔ ts = [] := by
+  cases ts <;> simp [EMatch]
+
+theorem EMatch_cons (e : Elem) (ps : List Elem) (t : Str) (ts : List Str) :
+    EMatch (e :: ps) (t :: ts) ↔
+      (e = .wild ∧ ps = []) ∨ (e = .lit t ∧ EMatch ps ts) ∨ (e = .param ∧ EMatch ps ts) := by
+  cases e with
+  | lit s => simp [EMatch]
+  | param => simp [EMatch]
+  | wild => cases ps <;> simp [EMatch]
+
+theorem EMatch_length {ps : List Elem} {ts : List Str} (h : EMatch ps ts) : ps.length ≤ ts.length := by
+  induction ts generalizing ps with
+  | nil => rw [EMatch_nil_right] at h; simp [h]
+  | cons t ts ih =>
+    cases ps with
+    | nil => simp
+    | cons e ps =>
+      rw [EMatch_cons] at h
+      rcases h with ⟨_, rfl⟩ | ⟨_, h⟩ | ⟨_, h⟩
+      · simp
+      · have := ih h; simp; omega
+      · have := ih h; simp; omega
+
+theorem EMatch_wildLast {ps : List Elem} {ts : List Str} (h : EMatch ps ts) : WildLast ps := by
+  induction ts generalizing ps with
+  | nil => rw [EMatch_nil_right] at h; simp [h, WildLast]
+  | cons t ts ih =>
+    cases ps with
+    | nil => simp [WildLast]
+    | cons e ps =>
+      rw [EMatch_cons] at h
+      rcases h with ⟨rfl, rfl⟩ | ⟨rfl, h⟩ | ⟨rfl, h⟩
+      · simp [WildLast]
+      · simp [WildLast, ih h]
+      · simp [WildLast, ih h]
+
+/-! ## `matchNode` -/
+
+/-- one alternative of `matchNode`: descend into child `c` (if any) -/
+def tryChild (c : Option Node) (rest : List Str) (i mi : Nat) : Option Found :=
+  match c with
+  | none => none
+  | some n => if rest.isEmpty then (if n.hs.isSome then some ⟨n, mi⟩ else none) else matchNode n rest i mi
+
+theorem matchNode_cons (l : Node) (t : Str) (rest : List Str) (i mi : Nat) :
+    matchNode l (t :: rest) i mi =
+      match tryChild (child l (.lit t)) rest (i + 1) (if l.mounted then i else mi) with
+      | some f => some f
+      | none =>
+        match tryChild (child l .param) rest (i + 1) (if l.mounted then i else mi) with
+        | some f => some f
+        | none => (child l .wild).map (fun w => ⟨w, if l.mounted then i else mi⟩) := by
+  rfl
+
+theorem matchNode_nil (l : Node) (i mi : Nat) : matchNode l [] i mi = none := rfl
+
+/-- the three alternatives, in DFS order -/
+theorem matchNode_cons_cases {l : Node} {t : Str} {rest : List Str} {i mi : Nat} {f : Found}
+    (h : matchNode l (t :: rest) i mi = some f) :
+    tryChild (child l (.lit t)) rest (i + 1) (if l.mounted then i else mi) = some f ∨
+    (tryChild (child l (.lit t)) rest (i + 1) (if l.mounted then i else mi) = none ∧
+      tryChild (child l .param) rest (i + 1) (if l.mounted then i else mi) = some f) ∨
+    (tryChild (child l (.lit t)) rest (i + 1) (if l.mounted then i else mi) = none ∧
+      tryChild (child l .param) rest (i + 1) (if l.mounted then i else mi) = none ∧
+      ∃ w, child l .wild = some w ∧ f = ⟨w, if l.mounted then i else mi⟩) := by
+  rw [matchNode_cons] at h
+  split at h
+  · left; simp_all
+  · rename_i h1
+    split at h
+    · right; left; simp_all
+    · rename_i h2
+      right; right
+      refine ⟨h1, h2, ?_⟩
+      cases hw : child l .wild with
+      | none => simp [hw] at h
+      | some w => simp [hw] at h; exact ⟨w, rfl, h.symm⟩
+
+theorem tryChild_some {c : Option Node} {rest : List Str} {i mi : Nat} {f : Found}
+    (h : tryChild c rest i mi = some f) :
+    ∃ n, c = some n ∧ ((rest = [] ∧ n.hs.isSome ∧ f = ⟨n, mi⟩) ∨ (rest ≠ [] ∧ matchNode n rest i mi = some f)) := by
+  cases c with
+  | none => simp [tryChild] at h
+  | some n =>
+    refine ⟨n, rfl, ?_⟩
+    simp only [tryChild] at h
+    cases rest with
+    | nil =>
+      left
+      simp only [List.isEmpty_nil, if_true] at h
+      split at h
+      · rename_i hh; simp at h; exact ⟨rfl, hh, h.symm⟩
+      · simp at h
+    | cons t r => right; simpa using h
+
+theorem tryChild_none {c : Option Node} {rest : List Str} {i mi : Nat} {n : Node}
+    (h : tryChild c rest i mi = none) (hc : c = some n) :
+    (rest = [] ∧ n.hs.isSome = false) ∨ (rest ≠ [] ∧ matchNode n rest i mi = none) := by
+  subst hc
+  simp only [tryChild] at h
+  cases rest with
+  | nil =>
+    left
+    simp only [List.isEmpty_nil, if_true] at h
+    split at h
+    · simp at h
+    · rename_i hh; simpa using hh
+  | cons t r => right; simpa using h
+
+/-- soundness of `matchNode`, for every start index -/
+theorem matchNode_sound (toks : List Str) : ∀ (l : Node) (i mi : Nat) (f : Found),
+    matchNode l toks i mi = some f → ∃ pat, getAt l pat = some f.node ∧ EMatch pat toks := by
+  induction toks with
+  | nil => intro l i mi f h; simp [matchNode_nil] at h
+  | cons t rest ih =>
+    intro l i mi f h
+    have step : ∀ (e : Elem) (mi' : Nat), (e = .lit t ∨ e = .param) →
+        tryChild (child l e) rest (i + 1) mi' = some f →
+        ∃ pat, getAt l pat = some f.node ∧ EMatch pat (t :: rest) := by
+      intro e mi' he h1
+      obtain ⟨n, hc, h2⟩ := tryChild_some h1
+      rcases h2 with ⟨rfl, _, rfl⟩ | ⟨_, h2⟩
+      · refine ⟨[e], by simp [getAt_cons, hc], ?_⟩
+        rw [EMatch_cons]; rcases he with rfl | rfl <;> simp [EMatch]
+      · obtain ⟨pat, hp, hm⟩ := ih n _ _ f h2
+        refine ⟨e :: pat, by simp [getAt_cons, hc, hp], ?_⟩
+        rw [EMatch_cons]; rcases he with rfl | rfl <;> simp [hm]
+    rcases matchNode_cons_cases h with h1 | ⟨_, h1⟩ | ⟨_, _, w, hw, rfl⟩
+    · exact step _ _ (Or.inl rfl) h1
+    · exact step _ _ (Or.inr rfl) h1
+    · exact ⟨[.wild], by simp [getAt_cons, hw], by simp [EMatch]⟩
+
+/-- completeness of `matchNode`, for every start index -/
+theorem matchNode_complete (toks : List Str) : ∀ (l : Node) (i mi : Nat) (pat : List Elem) (x : Node),
+    getAt l pat = some x → x.hs.isSome → EMatch pat toks → toks ≠ [] →
+    ∃ f, matchNode l toks i mi = some f := by
+  induction toks with
+  | nil => intro l i mi pat x _ _ _ h; exact absurd rfl h
+  | cons t rest ih =>
+    intro l i mi pat x hg hh hm _
+    cases pat with
+    | nil => simp [EMatch] at hm
+    | cons e ps =>
+      rw [getAt_cons] at hg
+      cases hc : child l e with
+      | none => simp [hc] at hg
+      | some c =>
+        simp only [hc, Option.bind_some] at hg
+        -- descending into a matching child succeeds
+        have sub : ∀ mi', EMatch ps rest → ∃ f, tryChild (some c) rest (i + 1) mi' = some f := by
+          intro mi' hm'
+          cases rest with
+          | nil =>
+            rw [EMatch_nil_right] at hm'; subst hm'
+            simp at hg; subst hg
+            exact ⟨⟨c, mi'⟩, by simp [tryChild, hh]⟩
+          | cons t' r' =>
+            obtain ⟨f, hf⟩ := ih c (i + 1) mi' ps x hg hh hm' (by simp)
+            exact ⟨f, by simp [tryChild, hf]⟩
+        rw [matchNode_cons]
+        rw [EMatch_cons] at hm
+        rcases hm with ⟨rfl, rfl⟩ | ⟨rfl, hm⟩ | ⟨rfl, hm⟩
+        · split
+          · exact ⟨_, rfl⟩
+          · split
+            · exact ⟨_, rfl⟩
+            · simp [hc]
+        · obtain ⟨f, hf⟩ := sub (if l.mounted then i else mi) hm
+          rw [hc, hf]; exact ⟨_, rfl⟩
+        · split
+          · exact ⟨_, rfl⟩
+          · obtain ⟨f, hf⟩ := sub (if l.mounted then i else mi) hm
+            rw [hc, hf]; exact ⟨_, rfl⟩
+
+
+theorem MoreSpec_nil_right (a : List Elem) : ¬ MoreSpec a [] := by
+  cases a <;> simp [MoreSpec]
+
+theorem MoreSpec_nil_left (a : List Elem) : ¬ MoreSpec [] a := by
+  simp [MoreSpec]
+
+theorem MoreSpec_cons (a b : Elem) (as bs : List Elem) :
+    MoreSpec (a :: as) (b :: bs) ↔ eCls a > eCls b ∨ (eCls a = eCls b ∧ MoreSpec as bs) := by
+  simp [MoreSpec]
+
+/-- if the alternative along edge `e` failed, nothing matching with a handler is stored below `e` -/
+theorem tryChild_none_noMatch {l : Node} {e : Elem} {rest : List Str} {i mi : Nat}
+    (h : tryChild (child l e) rest i mi = none) (ps : List Elem) (x : Node)
+    (hg : getAt l (e :: ps) = some x) (hh : x.hs.isSome) (hm : EMatch ps rest) : False := by
+  rw [getAt_cons] at hg
+  cases hc : child l e with
+  | none => simp [hc] at hg
+  | some c =>
+    simp only [hc, Option.bind_some] at hg
+    rcases tryChild_none h hc with ⟨rfl, h2⟩ | ⟨hne, h2⟩
+    · rw [EMatch_nil_right] at hm; subst hm
+      simp at hg; subst hg; simp [hh] at h2
+    · obtain ⟨f, hf⟩ := matchNode_complete rest c i mi ps x hg hh hm hne
+      simp [hf] at h2
+
+theorem getLast?_cons_of_some {α} (e : α) (l : List α) (a : α) (h : l.getLast? = some a) : (e :: l).getLast? = some a := by
+  cases l with
+  | nil => simp at h
+  | cons b l => simpa [List.getLast?_cons_cons] using h
+
+/-- `matchNode` returns the most specific match (DFS order = lexicographic order on `eCls`) -/
+theorem matchNode_most_specific (toks : List Str) : ∀ (l : Node) (i mi : Nat) (f : Found),
+    (∀ pat x, getAt l pat = some x → WildLast pat → pat.getLast? = some .wild → x.hs.isSome) →
+    matchNode l toks i mi = some f →
+    ∃ pat, getAt l pat = some f.node ∧ EMatch pat toks ∧ f.node.hs.isSome ∧
+      ∀ pat' x', getAt l pat' = some x' → x'.hs.isSome → EMatch pat' toks → ¬ MoreSpec pat' pat := by
+  induction toks with
+  | nil => intro l i mi f _ h; simp [matchNode_nil] at h
+  | cons t rest ih =>
+    intro l i mi f hw h
+    -- the alternative along a literal / placeholder edge
+    have step : ∀ (e : Elem) (mi' : Nat), (e = .lit t ∨ e = .param) →
+        tryChild (child l e) rest (i + 1) mi' = some f →
+        ∃ pat0, getAt l (e :: pat0) = some f.node ∧ EMatch (e :: pat0) (t :: rest) ∧ f.node.hs.isSome ∧
+          ∀ ps' x', getAt l (e :: ps') = some x' → x'.hs.isSome → EMatch ps' rest → ¬ MoreSpec ps' pat0 := by
+      intro e mi' he h1
+      have hew : e ≠ .wild := by rcases he with rfl | rfl <;> simp
+      obtain ⟨n, hc, h2⟩ := tryChild_some h1
+      rcases h2 with ⟨rfl, hh, rfl⟩ | ⟨_, h2⟩
+      · refine ⟨[], by simp [getAt_cons, hc], ?_, hh, ?_⟩
+        · rw [EMatch_cons]; rcases he with rfl | rfl <;> simp [EMatch]
+        · intro ps' x' _ _ _; exact MoreSpec_nil_right _
+      · have hwn : ∀ pat x, getAt n pat = some x → WildLast pat → pat.getLast? = some .wild → x.hs.isSome := by
+          intro pat x hg hwl hl
+          apply hw (e :: pat) x
+          · simp [getAt_cons, hc, hg]
+          · exact ⟨fun h => absurd h hew, hwl⟩
+          · exact getLast?_cons_of_some _ _ _ hl
+        obtain ⟨pat, hp, hm, hh, hbest⟩ := ih n _ _ f hwn h2
+        refine ⟨pat, by simp [getAt_cons, hc, hp], ?_, hh, ?_⟩
+        · rw [EMatch_cons]; rcases he with rfl | rfl <;> simp [hm]
+        · intro ps' x' hg' hh' hm'
+          apply hbest ps' x' _ hh' hm'
+          simpa [getAt_cons, hc] using hg'
+    rcases matchNode_cons_cases h with h1 | ⟨h0, h1⟩ | ⟨h0, h1, w, hw', rfl⟩
+    · obtain ⟨pat0, hg, hm, hh, hbest⟩ := step _ _ (Or.inl rfl) h1
+      refine ⟨_, hg, hm, hh, ?_⟩
+      intro pat' x' hg' hh' hm'
+      cases pat' with
+      | nil => exact MoreSpec_nil_left _
+      | cons e' ps' =>
+        rw [MoreSpec_cons]
+        rw [EMatch_cons] at hm'
+        rcases hm' with ⟨rfl, rfl⟩ | ⟨rfl, hm'⟩ | ⟨rfl, hm'⟩
+        · simp [eCls]
+        · simp only [eCls, gt_iff_lt, Nat.lt_irrefl, true_and, false_or]
+          exact hbest ps' x' hg' hh' hm'
+        · simp [eCls]
+    · obtain ⟨pat0, hg, hm, hh, hbest⟩ := step _ _ (Or.inr rfl) h1
+      refine ⟨_, hg, hm, hh, ?_⟩
+      intro pat' x' hg' hh' hm'
+      cases pat' with
+      | nil => exact MoreSpec_nil_left _
+      | cons e' ps' =>
+        rw [MoreSpec_cons]
+        rw [EMatch_cons] at hm'
+        rcases hm' with ⟨rfl, rfl⟩ | ⟨rfl, hm'⟩ | ⟨rfl, hm'⟩
+        · simp [eCls]
+        · exact fun _ => tryChild_none_noMatch h0 ps' x' hg' hh' hm'
+        · simp only [eCls, gt_iff_lt, Nat.lt_irrefl, true_and, false_or]
+          exact hbest ps' x' hg' hh' hm'
+    · refine ⟨[.wild], by simp [getAt_cons, hw'], by simp [EMatch], ?_, ?_⟩
+      · exact hw [.wild] w (by simp [getAt_cons, hw']) (by simp [WildLast]) rfl
+      · intro pat' x' hg' hh' hm'
+        cases pat' with
+        | nil => exact MoreSpec_nil_left _
+        | cons e' ps' =>
+          rw [MoreSpec_cons]
+          rw [EMatch_cons] at hm'
+          rcases hm' with ⟨rfl, rfl⟩ | ⟨rfl, hm'⟩ | ⟨rfl, hm'⟩
+          · simp [eCls, MoreSpec_nil_right]
+          · exact fun _ => tryChild_none_noMatch h0 ps' x' hg' hh' hm'
+          · exact fun _ => tryChild_none_noMatch h1 ps' x' hg' hh' hm'
+
+
+/-! ## registration as `fetch` + continuation -/
+
+/-- the continuation `Mux.add` runs on the node reached -/
+def addK (id : Nat) (g : Group) : Node → Bool → List PathParam → Nat → Node × Except FetchErr (Except RegErr Unit) :=
+  fun n _ params mountIdx =>
+    if n.hs.isSome then (n, .ok (.error .already))
+    else match setAndValidateParams n params with
+      | .error e => (n, .ok (.error e))
+      | .ok n' => (n'.setHs (some ⟨id, rebase g mountIdx⟩), .ok (.ok ()))
+
+/-- the continuation `Mux.AddListener` runs on the node reached -/
+def listenK (id : Nat) : Node → Bool → List PathParam → Nat → Node × Except FetchErr (Except RegErr Unit) :=
+  fun n _ params _ =>
+    match setAndValidateParams n params with
+    | .error e => (n, .ok (.error e))
+    | .ok n' => (n'.addListener id, .ok (.ok ()))
+
+def regResult : Except FetchErr (Except RegErr Unit) → Except RegErr Unit
+  | .error e => .error (.fetch e)
+  | .ok (.error e) => .error e
+  | .ok (.ok ()) => .ok ()
+
+theorem addAt_eq (root : Node) (pattern : Str) (id : Nat) (g : Group) :
+    addAt root pattern id g =
+      if !Pattern.isValid pattern then (root, .error .invalidPattern)
+      else ((fetch none (addK id g) root (splitPattern pattern) 0 0 [] false).1,
+            regResult (fetch none (addK id g) root (splitPattern pattern) 0 0 [] false).2) := by
+  unfold addAt
+  split
+  · rfl
+  · split
+    rename_i root' r heq
+    have heq' : fetch none (addK id g) root (splitPattern pattern) 0 0 [] false = (root', r) := heq
+    rw [heq']
+    rcases r with e | (e | ⟨⟨⟩⟩) <;> rfl
+
+theorem addListenerAt_eq (root : Node) (pattern : Str) (id : Nat) :
+    addListenerAt root pattern id =
+      ((fetch none (listenK id) root (splitPattern pattern) 0 0 [] false).1,
+       regResult (fetch none (listenK id) root (splitPattern pattern) 0 0 [] false).2) := by
+  unfold addListenerAt
+  split
+  rename_i root' r heq
+  have heq' : fetch none (listenK id) root (splitPattern pattern) 0 0 [] false = (root', r) := heq
+  rw [heq']
+  rcases r with e | (e | ⟨⟨⟩⟩) <;> rfl
+
+
+/-! ## what `fetch` does to stored nodes -/
+
+section fetch
+variable {α : Type} (k : Node → Bool → List PathParam → Nat → Node × Except FetchErr α)
+
+/-- a successful `fetch` leaves the continuation's output stored under the token path -/
+theorem fetch_stores (toks : List Str) : ∀ (n : Node) (i mi : Nat) (ps : List PathParam) (fr : Bool) (n' : Node) (a : α),
+    fetch none k n toks i mi ps fr = (n', .ok a) →
+    ∃ x0 fr' ps' mi', getAt n' (toks.map elemOf) = some (k x0 fr' ps' mi').1 ∧ (k x0 fr' ps' mi').2 = .ok a ∧
+      WildLast (toks.map elemOf) := by
+  induction toks with
+  | nil =>
+    intro n i mi ps fr n' a h
+    rw [fetch_none_nil] at h
+    exact ⟨n, fr, ps, mi, by simp [h], by simp [h], by simp [WildLast]⟩
+  | cons t rest ih =>
+    intro n i mi ps fr n' a h
+    rw [fetch_none_cons] at h
+    split at h
+    · simp at h
+    · rename_i e ps' hcl
+      obtain ⟨he, hwl, _, _⟩ := classify_ok hcl
+      simp only [Prod.mk.injEq] at h
+      obtain ⟨h1, h2⟩ := h
+      obtain ⟨x0, fr', ps'', mi', hg, hk, hw⟩ := ih _ _ _ _ _ _ a (Prod.ext rfl h2)
+      refine ⟨x0, fr', ps'', mi', ?_, hk, ?_⟩
+      · subst h1; subst he
+        simp only [List.map_cons, getAt_cons, child_setChild_self, Option.bind_some]
+        exact hg
+      · subst he
+        refine ⟨fun hw' => by simp [hwl hw'], hw⟩
+
+/-- if the token path already exists, `fetch` either panics or runs the continuation on the
+node stored there -/
+theorem fetch_existing (toks : List Str) : ∀ (n : Node) (i mi : Nat) (ps : List PathParam) (fr : Bool) (x : Node),
+    getAt n (toks.map elemOf) = some x →
+    (∃ e, (fetch none k n toks i mi ps fr).2 = .error e) ∨
+    ∃ fr' ps' mi', (fetch none k n toks i mi ps fr).2 = (k x fr' ps' mi').2 := by
+  induction toks with
+  | nil =>
+    intro n i mi ps fr x h
+    simp at h; subst h
+    exact Or.inr ⟨fr, ps, mi, rfl⟩
+  | cons t rest ih =>
+    intro n i mi ps fr x h
+    rw [fetch_none_cons]
+    split
+    · exact Or.inl ⟨_, rfl⟩
+    · rename_i e ps' hcl
+      obtain ⟨he, _, _, _⟩ := classify_ok hcl
+      subst he
+      simp only [List.map_cons, getAt_cons] at h
+      cases hc : child n (elemOf t) with
+      | none => simp [hc] at h
+      | some c =>
+        simp only [hc, Option.bind_some] at h
+        simpa [hc] using ih c (i + 1) (if n.mounted then i else mi) ps' false x h
+
+/-- frame: every node stored under another path keeps its handler and listeners, whatever
+the outcome of `fetch` -/
+theorem fetch_frame (hk : ∀ x0 fr ps mi e, child (k x0 fr ps mi).1 e = child x0 e)
+    (toks : List Str) : ∀ (n : Node) (i mi : Nat) (ps : List PathParam) (fr : Bool) (pat : List Elem) (x : Node),
+    getAt n pat = some x → pat ≠ toks.map elemOf →
+    ∃ x', getAt (fetch none k n toks i mi ps fr).1 pat = some x' ∧ x'.hs = x.hs ∧ x'.listeners = x.listeners := by
+  induction toks with
+  | nil =>
+    intro n i mi ps fr pat x h hne
+    cases pat with
+    | nil => simp at hne
+    | cons e r =>
+      refine ⟨x, ?_, rfl, rfl⟩
+      rw [fetch_none_nil, getAt_cons, hk, ← getAt_cons]; exact h
+  | cons t rest ih =>
+    intro n i mi ps fr pat x h hne
+    rw [fetch_none_cons]
+    split
+    · exact ⟨x, h, rfl, rfl⟩
+    · rename_i e ps' hcl
+      obtain ⟨he, _, _, _⟩ := classify_ok hcl
+      cases pat with
+      | nil =>
+        simp at h; subst h
+        exact ⟨_, getAt_nil _, by simp, by simp⟩
+      | cons e' r =>
+        by_cases hee : e' = e
+        · subst hee
+          rw [getAt_cons] at h
+          cases hc : child n e' with
+          | none => simp [hc] at h
+          | some c =>
+            simp only [hc, Option.bind_some] at h
+            have hne' : r ≠ rest.map elemOf := by
+              intro hr; apply hne; simp [hr, he]
+            obtain ⟨x', hg', hh⟩ := ih c (i + 1) (if n.mounted then i else mi) ps' false r x h hne'
+            refine ⟨x', ?_, hh⟩
+            simpa [getAt_cons, hc] using hg'
+        · refine ⟨x, ?_, rfl, rfl⟩
+          rw [getAt_cons] at h ⊢
+          simp only [child_setChild_ne _ _ _ _ hee]
+          exact h
+
+end fetch
+
+theorem setAndValidateParams_ok {n : Node} {ps : List PathParam} {n' : Node}
+    (h : setAndValidateParams n ps = .ok n') :
+    (n' = n.setParams ps ∧ n.params = []) ∨ (n' = n ∧ n.params = ps) := by
+  unfold setAndValidateParams at h
+  split at h
+  · rename_i he
+    simp at h; left; exact ⟨h.symm, by simpa using he⟩
+  · split at h
+    · simp at h
+    · split at h
+      · rename_i he; simp at h; right; exact ⟨h.symm, he⟩
+      · simp at h
+
+theorem child_addK (id : Nat) (g : Group) (x0 : Node) (fr : Bool) (ps : List PathParam) (mi : Nat) (e : Elem) :
+    child (addK id g x0 fr ps mi).1 e = child x0 e := by
+  unfold addK
+  split
+  · rfl
+  · split
+    · rfl
+    · rename_i n' h
+      rcases setAndValidateParams_ok h with ⟨rfl, _⟩ | ⟨rfl, _⟩ <;> cases e <;> simp [child]
+
+theorem child_listenK (id : Nat) (x0 : Node) (fr : Bool) (ps : List PathParam) (mi : Nat) (e : Elem) :
+    child (listenK id x0 fr ps mi).1 e = child x0 e := by
+  unfold listenK
+  split
+  · rfl
+  · rename_i n' h
+    rcases setAndValidateParams_ok h with ⟨rfl, _⟩ | ⟨rfl, _⟩ <;> cases e <;> simp [child]
+
+
+theorem regResult_ok {r : Except FetchErr (Except RegErr Unit)} (h : regResult r = .ok ()) : r = .ok (.ok ()) := by
+  rcases r with e | (e | ⟨⟨⟩⟩) <;> simp [regResult] at h ⊢
+
+theorem addK_ok {id : Nat} {g : Group} {x0 : Node} {fr : Bool} {ps : List PathParam} {mi : Nat}
+    (h : (addK id g x0 fr ps mi).2 = .ok (.ok ())) :
+    x0.hs = none ∧ ∃ n', setAndValidateParams x0 ps = .ok n' ∧
+      (addK id g x0 fr ps mi).1 = n'.setHs (some ⟨id, rebase g mi⟩) := by
+  unfold addK at h ⊢
+  split at h
+  · simp at h
+  · rename_i hh
+    split at h
+    · simp at h
+    · rename_i n' hn
+      refine ⟨by simpa using hh, n', hn, ?_⟩
+      simp [hh]
+
+theorem addAt_stores {root : Node} {pattern : Str} {id : Nat} {g : Group} {root' : Node}
+    (h : addAt root pattern id g = (root', .ok ())) :
+    ∃ x, getAt root' ((splitPattern pattern).map elemOf) = some x ∧ WildLast ((splitPattern pattern).map elemOf) ∧
+      x.hs.map (·.id) = some id := by
+  rw [addAt_eq] at h
+  split at h
+  · simp at h
+  · simp only [Prod.mk.injEq] at h
+    obtain ⟨h1, h2⟩ := h
+    have h2 := regResult_ok h2
+    obtain ⟨x0, fr', ps', mi', hg, hk, hw⟩ := fetch_stores (addK id g) _ _ _ _ _ _ _ _ (Prod.ext h1 h2)
+    obtain ⟨_, n', _, hx⟩ := addK_ok hk
+    exact ⟨_, hg, hw, by simp [hx]⟩
+
+theorem addAt_frame (root : Node) (pattern : Str) (id : Nat) (g : Group) (pat : List Elem) (x : Node)
+    (hne : pat ≠ (splitPattern pattern).map elemOf) (hs : getAt root pat = some x) :
+    ∃ x', getAt (addAt root pattern id g).1 pat = some x' ∧ x'.hs = x.hs ∧ x'.listeners = x.listeners := by
+  rw [addAt_eq]
+  split
+  · exact ⟨x, hs, rfl, rfl⟩
+  · exact fetch_frame (addK id g) (child_addK id g) _ _ _ _ _ _ _ _ hs hne
+
+theorem addAt_conflict (root : Node) (pattern : Str) (id : Nat) (g : Group) (x : Node)
+    (hs : getAt root ((splitPattern pattern).map elemOf) = some x) (hh : x.hs.isSome) :
+    (addAt root pattern id g).2 ≠ .ok () := by
+  rw [addAt_eq]
+  split
+  · simp
+  · intro h
+    have h := regResult_ok h
+    rcases fetch_existing (addK id g) _ root 0 0 [] false x hs with ⟨e, he⟩ | ⟨fr', ps', mi', he⟩
+    · rw [he] at h; simp at h
+    · rw [he] at h
+      simp [addK, hh] at h
+
+
+/-! ## `parseGroup` -/
+
+theorem findTok_some {tokens : List Str} {tag : Str} {j r : Nat} (h : findTok tokens tag j = some r) :
+    j ≤ r ∧ tokens[r - j]? = some tag := by
+  induction tokens generalizing j with
+  | nil => simp [findTok] at h
+  | cons t ts ih =>
+    simp only [findTok] at h
+    split at h
+    · rename_i ht; simp at h; subst h; simp [ht]
+    · obtain ⟨h1, h2⟩ := ih h
+      refine ⟨by omega, ?_⟩
+      have : r - j = (r - (j + 1)) + 1 := by omega
+      rw [this]; simpa using h2
+
+
+theorem parseGroupDefault_idx (tokens : List Str) (n : Nat) : ∀ (g cur : Str) (acc parts : List GPart),
+    g.length = n →
+    (∀ i, GPart.idx i ∈ acc → ∃ name, tokens[i]? = some (dollar :: name)) →
+    parseGroupDefault tokens g cur acc = .ok parts →
+    ∀ i, GPart.idx i ∈ parts → ∃ name, tokens[i]? = some (dollar :: name) := by
+  induction n using Nat.strongRecOn with
+  | _ n ih =>
+    intro g cur acc parts hn hacc h
+    have hacc' : ∀ i, GPart.idx i ∈ (if cur.isEmpty then acc else acc ++ [.str cur.reverse]) →
+        ∃ name, tokens[i]? = some (dollar :: name) := by
+      intro i hi
+      split at hi
+      · exact hacc i hi
+      · simp at hi; exact hacc i hi
+    cases g with
+    | nil =>
+      rw [parseGroupDefault] at h
+      simp only [Except.ok.injEq] at h; subst h
+      exact hacc'
+    | cons c r =>
+      rw [parseGroupDefault] at h
+      split at h
+      · simp only at h
+        split at h
+        · simp at h
+        · split at h
+          · simp at h
+          · split at h
+            · simp at h
+            · rename_i tag rest ht
+              split at h
+              · simp at h
+              · rename_i j hj
+                have hlen := tagLoop_len ht
+                refine ih rest.length (by simp at hn hlen ⊢; omega) rest [] _ parts rfl ?_ h
+                intro i hi
+                simp only [List.mem_append, List.mem_singleton, GPart.idx.injEq] at hi
+                rcases hi with hi | rfl
+                · exact hacc' i hi
+                · have := (findTok_some hj).2
+                  exact ⟨tag, by simpa using this⟩
+      · exact ih r.length (by simp at hn ⊢; omega) r _ acc parts rfl hacc h
+
+theorem parseGroup_idx' {group pattern : Str} {parts : List GPart} {i : Nat}
+    (h : parseGroup group pattern = .ok (some parts)) (hi : GPart.idx i ∈ parts) :
+    ∃ name, (splitPattern pattern)[i]? = some (dollar :: name) := by
+  unfold parseGroup at h
+  split at h
+  · simp at h
+  · split at h
+    · rename_i gr hg
+      simp at h; subst h
+      exact parseGroupDefault_idx _ _ _ _ _ _ rfl (by simp) hg i hi
+    · simp at h
+
+
+section fresh
+open Pattern
+
+/-! ## registering a well-formed pattern on a fresh mux -/
+
+theorem wfPat_cons {t : Tok} {r : List Tok} (h : wfPat (t :: r) = true) :
+    t.ok = true ∧ (t = .full → r = []) ∧ wfPat r = true := by
+  cases r with
+  | nil => simpa [wfPat] using h
+  | cons t' r' =>
+    simp only [wfPat, Bool.and_eq_true, decide_eq_true_eq] at h
+    exact ⟨h.1.1, fun hf => absurd hf h.1.2, h.2⟩
+
+theorem classify_wf {t : Str} {rest : List Str} {ps : List PathParam} (idx : Nat)
+    (hok : (parseTok t).ok = true) (hfull : parseTok t = .full → rest = [])
+    (hdup : ∀ name, parseTok t = .tag name → ∀ q ∈ ps, q.name ≠ name) :
+    ∃ e, classify t rest ps idx = .ok (e, ps ++ tokParams t idx) := by
+  cases t with
+  | nil => simp [parseTok, Tok.ok, litOk] at hok
+  | cons c r =>
+    by_cases hd : c = dollar
+    · subst hd
+      simp only [parseTok, if_true, Tok.ok, tagOk, Bool.and_eq_true] at hok hdup
+      have hr : r ≠ [] := by
+        intro h; subst h; simp at hok
+      have hdup' := hdup r rfl
+      refine ⟨.param, ?_⟩
+      have hany : ps.any (fun q => decide (q.name = r)) = false := by
+        simp only [List.any_eq_false, decide_eq_true_eq]
+        exact fun q hq => hdup' q hq
+      have h1 : (r.isEmpty != decide (dollar = star)) = false := by
+        cases r with
+        | nil => exact absurd rfl hr
+        | cons _ _ => simp; decide
+      simp [classify, tokParams, hany, h1]
+    · by_cases hs : c = star
+      · subst hs
+        by_cases hr : r = []
+        · subst hr
+          refine ⟨.param, ?_⟩
+          simp [classify, tokParams, hd]
+        · have : parseTok (star :: r) = .lit (star :: r) := by
+            simp [parseTok, hr, hd]
+          simp [this, Tok.ok, litOk] at hok
+      · by_cases hg : c = gt
+        · subst hg
+          by_cases hr : r = []
+          · subst hr
+            have : parseTok [gt] = .full := by simp [parseTok, hd, hs]
+            have hrest := hfull this
+            subst hrest
+            refine ⟨.wild, ?_⟩
+            simp [classify, tokParams, hd, hs]
+          · have : parseTok (gt :: r) = .lit (gt :: r) := by
+              simp [parseTok, hr, hd, hs]
+            simp [this, Tok.ok, litOk] at hok
+        · refine ⟨.lit (c :: r), ?_⟩
+          simp [classify, tokParams, hd, hs, hg]
+
+theorem tokParams_tag {t : Str} {idx : Nat} {pp : PathParam} (h : pp ∈ tokParams t idx) :
+    parseTok t = .tag pp.name ∧ t = dollar :: pp.name ∧ pp.idx = idx := by
+  cases t with
+  | nil => simp [tokParams] at h
+  | cons c r =>
+    simp only [tokParams] at h
+    split at h
+    · rename_i hc; subst hc
+      simp at h; subst h
+      simp [parseTok]
+    · simp at h
+
+theorem fetch_fresh_ok {α : Type} (k : Node → Bool → List PathParam → Nat → Node × Except FetchErr α) (a : α)
+    (hk : ∀ fr ps mi, (k Node.empty fr ps mi).2 = .ok a) (toks : List Str) :
+    ∀ (i mi : Nat) (ps : List PathParam) (fr : Bool),
+    wfPat (toks.map parseTok) = true → distinctTags (toks.map parseTok) = true →
+    (∀ q ∈ ps, q.name ∉ tagsOf (toks.map parseTok)) →
+    (fetch none k Node.empty toks i mi ps fr).2 = .ok a := by
+  induction toks with
+  | nil => intro i mi ps fr _ _ _; rw [fetch_none_nil]; exact hk _ _ _
+  | cons t rest ih =>
+    intro i mi ps fr hwf hdt hps
+    simp only [List.map_cons] at hwf hdt hps
+    obtain ⟨hok, hfull, hwf'⟩ := wfPat_cons hwf
+    have hfull' : parseTok t = .full → rest = [] := fun h => by simpa using hfull h
+    have hdup : ∀ name, parseTok t = .tag name → ∀ q ∈ ps, q.name ≠ name := by
+      intro name hn q hq hqn
+      apply hps q hq
+      simp [hn, tagsOf, hqn]
+    obtain ⟨e, hcl⟩ := classify_wf (rest := rest) (i - (if Node.empty.mounted then i else mi)) hok hfull' hdup
+    rw [fetch_none_cons, hcl]
+    simp only [child_empty, Option.getD_none]
+    apply ih
+    · exact hwf'
+    · cases hpt : parseTok t <;> simp_all [distinctTags]
+    · intro q hq
+      simp only [List.mem_append] at hq
+      rcases hq with hq | hq
+      · have := hps q hq
+        cases hpt : parseTok t <;> simp_all [tagsOf]
+      · obtain ⟨hpt, _, _⟩ := tokParams_tag hq
+        simp [hpt, distinctTags] at hdt
+        exact hdt.1
+
+theorem addK_empty_ok (id : Nat) (g : Group) (fr : Bool) (ps : List PathParam) (mi : Nat) :
+    (addK id g Node.empty fr ps mi).2 = .ok (.ok ()) := by
+  simp [addK, setAndValidateParams]
+
+theorem parse_splitPattern {pattern : Str} {ts : List Tok} (hp : Pattern.parse pattern = some ts) :
+    ts = (splitPattern pattern).map parseTok ∧ wfPat ts = true := by
+  unfold Pattern.parse at hp
+  unfold splitPattern
+  split at hp
+  · simp at hp; subst hp; simp [*, wfPat]
+  · rename_i hne
+    simp only at hp
+    split at hp
+    · rename_i hw; simp at hp; subst hp; simp [hne, hw]
+    · simp at hp
+
+theorem addAt_valid_fresh (pattern : Str) (id : Nat) (ts : List Tok) (g : Group)
+    (hv : Pattern.isValid pattern = true)
+    (hp : Pattern.parse pattern = some ts) (hd : distinctTags ts = true) :
+    (addAt Node.empty pattern id g).2 = .ok () := by
+  obtain ⟨rfl, hwf⟩ := parse_splitPattern hp
+  rw [addAt_eq]
+  simp only [hv, Bool.not_true, Bool.false_eq_true, if_false]
+  rw [fetch_fresh_ok (addK id g) (.ok ()) (addK_empty_ok id g) _ 0 0 [] false hwf hd (by simp)]
+  rfl
+
+
+end fresh
+
+/-! ## the tree after one registration on the empty mux: a single line -/
+
+/-- the tree consisting of the path `es` ending in `x` -/
+def lineNode : List Elem → Node → Node
+  | [], x => x
+  | e :: r, x => setChild Node.empty e (lineNode r x)
+
+/-- the `pathParam`s of a token list whose first token has index `i` -/
+def paramsOf : List Str → Nat → List PathParam
+  | [], _ => []
+  | t :: r, i => tokParams t i ++ paramsOf r (i + 1)
+
+theorem tokParams_length_le (t : Str) (i : Nat) : (tokParams t i).length ≤ 1 := by
+  cases t with
+  | nil => simp [tokParams]
+  | cons c r => simp only [tokParams]; split <;> simp
+
+theorem nodup_names_append {ps qs : List PathParam} (hps : (ps.map (·.name)).Nodup) (hq : qs.length ≤ 1)
+    (hne : ∀ pp ∈ qs, ∀ q ∈ ps, q.name ≠ pp.name) : ((ps ++ qs).map (·.name)).Nodup := by
+  rw [List.map_append, List.nodup_append]
+  refine ⟨hps, ?_, ?_⟩
+  · match qs, hq with
+    | [], _ => simp
+    | [a], _ => simp
+  · intro a ha b hb
+    simp only [List.mem_map] at ha hb
+    obtain ⟨q, hq, rfl⟩ := ha
+    obtain ⟨pp, hpp, rfl⟩ := hb
+    exact hne pp hpp q hq
+
+theorem fetch_fresh_line {α : Type} (k : Node → Bool → List PathParam → Nat → Node × Except FetchErr α)
+    (toks : List Str) : ∀ (i : Nat) (ps : List PathParam) (fr : Bool) (n' : Node) (a : α),
+    fetch none k Node.empty toks i 0 ps fr = (n', .ok a) →
+    ∃ fr', n' = lineNode (toks.map elemOf) (k Node.empty fr' (ps ++ paramsOf toks i) 0).1 ∧
+      (k Node.empty fr' (ps ++ paramsOf toks i) 0).2 = .ok a ∧ WildLast (toks.map elemOf) ∧
+      ((ps.map (·.name)).Nodup → ((ps ++ paramsOf toks i).map (·.name)).Nodup) := by
+  induction toks with
+  | nil =>
+    intro i ps fr n' a h
+    rw [fetch_none_nil] at h
+    exact ⟨fr, by simp [paramsOf, lineNode, h], by simp [paramsOf, h], by simp [WildLast], by simp [paramsOf]⟩
+  | cons t rest ih =>
+    intro i ps fr n' a h
+    rw [fetch_none_cons] at h
+    split at h
+    · simp at h
+    · rename_i e ps' hcl
+      obtain ⟨he, hwl, hps', hdup⟩ := classify_ok hcl
+      simp only [Node.mounted_empty, Bool.false_eq_true, if_false, Nat.sub_zero, child_empty,
+        Option.getD_none, Option.isNone_none, Prod.mk.injEq] at h hps' hdup
+      obtain ⟨h1, h2⟩ := h
+      obtain ⟨fr', hn, hk, hw, hnd⟩ := ih _ _ _ _ a (Prod.ext rfl h2)
+      subst hps'
+      refine ⟨fr', ?_, ?_, ?_, ?_⟩
+      · rw [← h1]
+        simp only [List.map_cons, lineNode, paramsOf, ← List.append_assoc, ← he]
+        exact congrArg _ hn
+      · simpa [paramsOf, List.append_assoc] using hk
+      · subst he
+        exact ⟨fun hw' => by simp [hwl hw'], hw⟩
+      · intro hps
+        have := hnd (nodup_names_append hps (tokParams_length_le t i) hdup)
+        simpa [paramsOf, List.append_assoc] using this
+
+theorem hs_lineNode_cons (e : Elem) (r : List Elem) (x : Node) : (lineNode (e :: r) x).hs = none := by
+  simp [lineNode]
+
+theorem child_lineNode_cons {e e' : Elem} {r : List Elem} {x n : Node}
+    (h : child (lineNode (e :: r) x) e' = some n) : e' = e ∧ n = lineNode r x := by
+  by_cases hee : e' = e
+  · subst hee; simp [lineNode] at h; exact ⟨rfl, h.symm⟩
+  · simp [lineNode, child_setChild_ne _ _ _ _ hee] at h
+
+/-- on a single-line tree, `matchNode` can only return the end of the line -/
+theorem matchNode_line (x : Node) (hx : ∀ e, child x e = none) (es : List Elem) :
+    ∀ (toks : List Str) (i mi : Nat) (f : Found), WildLast es →
+    matchNode (lineNode es x) toks i mi = some f →
+    f.node = x ∧ f.mountIdx = mi ∧ es.length ≤ toks.length := by
+  induction es with
+  | nil =>
+    intro toks i mi f _ h
+    cases toks with
+    | nil => simp [matchNode_nil] at h
+    | cons t rest =>
+      simp only [lineNode] at h
+      rcases matchNode_cons_cases h with h1 | ⟨_, h1⟩ | ⟨_, _, w, hw, _⟩
+      · obtain ⟨n, hc, _⟩ := tryChild_some h1; simp [hx] at hc
+      · obtain ⟨n, hc, _⟩ := tryChild_some h1; simp [hx] at hc
+      · simp [hx] at hw
+  | cons e r ih =>
+    intro toks i mi f hwl h
+    cases toks with
+    | nil => simp [matchNode_nil] at h
+    | cons t rest =>
+      have hm : (lineNode (e :: r) x).mounted = false := by simp [lineNode]
+      have step : ∀ e', tryChild (child (lineNode (e :: r) x) e') rest (i + 1) mi = some f →
+          f.node = x ∧ f.mountIdx = mi ∧ (e :: r).length ≤ (t :: rest).length := by
+        intro e' h1
+        obtain ⟨n, hc, h2⟩ := tryChild_some h1
+        obtain ⟨rfl, rfl⟩ := child_lineNode_cons hc
+        rcases h2 with ⟨rfl, hh, rfl⟩ | ⟨_, h2⟩
+        · cases r with
+          | nil => simp [lineNode]
+          | cons e2 r2 => simp [hs_lineNode_cons] at hh
+        · obtain ⟨h3, h4, h5⟩ := ih rest (i + 1) mi f hwl.2 h2
+          exact ⟨h3, h4, by simp; omega⟩
+      have hcases := matchNode_cons_cases h
+      simp only [hm, Bool.false_eq_true, if_false] at hcases
+      rcases hcases with h1 | ⟨_, h1⟩ | ⟨_, _, w, hw, rfl⟩
+      · exact step _ h1
+      · exact step _ h1
+      · obtain ⟨rfl, rfl⟩ := child_lineNode_cons hw
+        have := hwl.1 rfl; subst this
+        simp [lineNode]
+
+
+theorem rebase_zero (g : Group) : rebase g 0 = g := by
+  unfold rebase
+  cases g with
+  | none => rfl
+  | some l =>
+    show some (l.map _) = some l
+    congr 1
+    induction l with
+    | nil => rfl
+    | cons a l ih => rw [List.map_cons, ih]; cases a <;> rfl
+
+theorem addHandlerAt_ok {root : Node} {pattern : Str} {id : Nat} {group : Str} {par : Bool} {root' : Node}
+    (h : addHandlerAt root pattern id group par = (root', .ok ())) :
+    ∃ g, (if par then g = some [] else parseGroup group pattern = .ok g) ∧
+      addAt root pattern id g = (root', .ok ()) := by
+  unfold addHandlerAt at h
+  split at h
+  · rename_i hp; exact ⟨some [], by simp [hp], h⟩
+  · rename_i hp
+    split at h
+    · simp at h
+    · rename_i g hg; exact ⟨g, by simp [hp, hg], h⟩
+
+/-- the tree after a successful registration on the empty mux -/
+theorem addAt_empty_ok {pattern : Str} {id : Nat} {g : Group} {root' : Node}
+    (h : addAt Node.empty pattern id g = (root', .ok ())) :
+    root' = lineNode ((splitPattern pattern).map elemOf)
+      ((Node.empty.setParams (paramsOf (splitPattern pattern) 0)).setHs (some ⟨id, g⟩)) ∧
+    WildLast ((splitPattern pattern).map elemOf) ∧
+    ((paramsOf (splitPattern pattern) 0).map (·.name)).Nodup := by
+  rw [addAt_eq] at h
+  split at h
+  · simp at h
+  · simp only [Prod.mk.injEq] at h
+    obtain ⟨h1, h2⟩ := h
+    have h2 := regResult_ok h2
+    obtain ⟨fr', hn, _, hw, hnd⟩ := fetch_fresh_line (addK id g) _ 0 [] false _ _ (Prod.ext h1 h2)
+    refine ⟨?_, hw, by simpa using hnd⟩
+    rw [hn]
+    simp [addK, setAndValidateParams, rebase_zero]
+
+
+section pvalues
+open Pattern
+
+/-! ## Go map assignment on association lists -/
+
+theorem mapGet_map_upd_ne (m : List (Str × Str)) (k v k' : Str) (hk : k' ≠ k) :
+    mapGet (m.map (fun e => if e.1 == k then (k, v) else e)) k' = mapGet m k' := by
+  induction m with
+  | nil => simp [mapGet]
+  | cons a m ih =>
+    obtain ⟨a, b⟩ := a
+    simp only [mapGet] at ih
+    have hk' : ¬ k = k' := fun h => hk h.symm
+    by_cases hak : a = k
+    · subst hak
+      simp [mapGet, hk'] at ih ⊢
+      exact ih
+    · by_cases hak' : a = k'
+      · subst hak'; simp [mapGet, hak]
+      · simp [mapGet, hak, hak'] at ih ⊢
+        exact ih
+
+theorem mapGet_map_upd_self (m : List (Str × Str)) (k v : Str) (h : m.any (·.1 == k) = true) :
+    mapGet (m.map (fun e => if e.1 == k then (k, v) else e)) k = some v := by
+  induction m with
+  | nil => simp at h
+  | cons a m ih =>
+    obtain ⟨a, b⟩ := a
+    by_cases hak : a = k
+    · subst hak; simp [mapGet]
+    · have hb : (a == k) = false := by simpa using hak
+      simp only [List.any_cons, hb, Bool.false_or] at h
+      have := ih h
+      simp only [mapGet] at this
+      simp [mapGet, hak] at this ⊢
+      exact this
+
+theorem mapGet_none_of_any_false {m : List (Str × Str)} {k : Str} (h : m.any (·.1 == k) = false) :
+    mapGet m k = none := by
+  simp only [mapGet, Option.map_eq_none_iff, List.find?_eq_none]
+  intro x hx
+  have := List.any_eq_false.1 h x hx
+  exact this
+
+theorem mapGet_mapSet (m : List (Str × Str)) (k v k' : Str) :
+    mapGet (mapSet m k v) k' = if k' = k then some v else mapGet m k' := by
+  unfold mapSet
+  split
+  · rename_i h
+    by_cases hk : k' = k
+    · subst hk; rw [mapGet_map_upd_self _ _ _ h]; simp
+    · rw [mapGet_map_upd_ne _ _ _ _ hk]; simp [hk]
+  · rename_i h
+    have h : m.any (·.1 == k) = false := Bool.eq_false_iff.mpr h
+    by_cases hk : k' = k
+    · subst hk
+      have := mapGet_none_of_any_false h
+      simp only [mapGet, Option.map_eq_none_iff] at this
+      simp [mapGet, List.find?_append, this]
+    · have hk' : ¬ k = k' := fun h => hk h.symm
+      simp only [mapGet, List.find?_append, hk, if_false]
+      cases m.find? (fun x => x.1 == k') <;> simp [hk']
+
+/-! ## parameter values -/
+
+theorem paramValues_spec (toks : List Str) (mi : Nat) (ps : List PathParam) :
+    ∀ (acc : List (Str × Str)), (∀ pp ∈ ps, pp.idx + mi < toks.length) → (ps.map (·.name)).Nodup →
+    ∃ m, ps.foldlM (fun acc pp => (toks[pp.idx + mi]?).map (fun v => Pattern.mapSet acc pp.name v)) acc = some m ∧
+      (∀ pp ∈ ps, mapGet m pp.name = toks[pp.idx + mi]?) ∧
+      (∀ k, k ∉ ps.map (·.name) → mapGet m k = mapGet acc k) := by
+  induction ps with
+  | nil => intro acc _ _; exact ⟨acc, by simp, by simp, by simp⟩
+  | cons p r ih =>
+    intro acc hlt hnd
+    have hp := hlt p (by simp)
+    simp only [List.map_cons, List.nodup_cons] at hnd
+    obtain ⟨m, hm, hin, hout⟩ := ih (mapSet acc p.name toks[p.idx + mi]) (fun pp hpp => hlt pp (by simp [hpp])) hnd.2
+    refine ⟨m, ?_, ?_, ?_⟩
+    · simp [List.foldlM_cons, List.getElem?_eq_getElem hp, hm]
+    · intro pp hpp
+      simp only [List.mem_cons] at hpp
+      rcases hpp with rfl | hpp
+      · rw [hout _ hnd.1, mapGet_mapSet]; simp [List.getElem?_eq_getElem hp]
+      · exact hin pp hpp
+    · intro k hk
+      simp only [List.map_cons, List.mem_cons, not_or] at hk
+      rw [hout k hk.2, mapGet_mapSet]; simp [hk.1]
+
+theorem mem_paramsOf {toks : List Str} {i : Nat} {pp : PathParam} :
+    pp ∈ paramsOf toks i ↔ ∃ j, toks[j]? = some (dollar :: pp.name) ∧ pp.idx = i + j := by
+  induction toks generalizing i with
+  | nil => simp [paramsOf]
+  | cons t r ih =>
+    simp only [paramsOf, List.mem_append, ih]
+    constructor
+    · rintro (h | ⟨j, h1, h2⟩)
+      · obtain ⟨_, h1, h2⟩ := tokParams_tag h
+        exact ⟨0, by simp [h1], by simp [h2]⟩
+      · exact ⟨j + 1, by simpa using h1, by omega⟩
+    · rintro ⟨j, h1, h2⟩
+      cases j with
+      | zero =>
+        left
+        simp at h1; subst h1
+        obtain ⟨name, idx⟩ := pp
+        simp at h2; subst h2
+        simp [tokParams]
+      | succ j => right; exact ⟨j, by simpa using h1, by omega⟩
+
+
+end pvalues
+
+/-- what lookup finds after one successful `AddHandler` on the empty mux -/
+theorem addHandlerAt_empty_found {pattern : Str} {id : Nat} {group : Str} {par : Bool} {root' : Node}
+    {toks : List Str} {f : Found}
+    (h : addHandlerAt Node.empty pattern id group par = (root', .ok ()))
+    (hm : matchNode root' toks 0 0 = some f) :
+    ∃ g, (if par then g = some [] else parseGroup group pattern = .ok g) ∧
+      f.mountIdx = 0 ∧
+      f.node = (Node.empty.setParams (paramsOf (splitPattern pattern) 0)).setHs (some ⟨id, g⟩) ∧
+      (splitPattern pattern).length ≤ toks.length ∧
+      ((paramsOf (splitPattern pattern) 0).map (·.name)).Nodup := by
+  obtain ⟨g, hg, hadd⟩ := addHandlerAt_ok h
+  obtain ⟨hroot, hwl, hnd⟩ := addAt_empty_ok hadd
+  subst hroot
+  have hx : ∀ e, child ((Node.empty.setParams (paramsOf (splitPattern pattern) 0)).setHs (some ⟨id, g⟩)) e = none := by
+    intro e; cases e <;> simp [child]
+  obtain ⟨h1, h2, h3⟩ := matchNode_line _ hx _ toks 0 0 f hwl hm
+  exact ⟨g, hg, h2, h1, by simpa using h3, hnd⟩
+
+theorem params_exact' {pattern : Str} {id : Nat} {group : Str} {par : Bool} {root' : Node}
+    {toks : List Str} {f : Found}
+    (h : addHandlerAt Node.empty pattern id group par = (root', .ok ()))
+    (hm : matchNode root' toks 0 0 = some f) :
+    ∃ m, paramValues f.node.params toks f.mountIdx = some m ∧
+      (∀ (j : Nat) (name : Str), (splitPattern pattern)[j]? = some (dollar :: name) → Pattern.mapGet m name = toks[j]?) ∧
+      (∀ (name v : Str), Pattern.mapGet m name = some v → ∃ j : Nat, (splitPattern pattern)[j]? = some (dollar :: name)) := by
+  obtain ⟨g, _, hmi, hnode, hlen, hnd⟩ := addHandlerAt_empty_found h hm
+  have hps : f.node.params = paramsOf (splitPattern pattern) 0 := by simp [hnode]
+  have hlt : ∀ pp ∈ paramsOf (splitPattern pattern) 0, pp.idx + 0 < toks.length := by
+    intro pp hpp
+    obtain ⟨j, hj, hidx⟩ := mem_paramsOf.1 hpp
+    have : j < (splitPattern pattern).length := by
+      rcases Nat.lt_or_ge j (splitPattern pattern).length with h | h
+      · exact h
+      · rw [List.getElem?_eq_none h] at hj; simp at hj
+    omega
+  obtain ⟨m, hfold, hin, hout⟩ := paramValues_spec toks 0 _ [] hlt hnd
+  refine ⟨m, ?_, ?_, ?_⟩
+  · rw [hps, hmi]; exact hfold
+  · intro j name hj
+    have hmem : (⟨name, j⟩ : PathParam) ∈ paramsOf (splitPattern pattern) 0 :=
+      mem_paramsOf.2 ⟨j, hj, by simp⟩
+    simpa using hin _ hmem
+  · intro name v hv
+    by_cases hmem : name ∈ (paramsOf (splitPattern pattern) 0).map (·.name)
+    · simp only [List.mem_map] at hmem
+      obtain ⟨pp, hpp, rfl⟩ := hmem
+      obtain ⟨j, hj, _⟩ := mem_paramsOf.1 hpp
+      exact ⟨j, hj⟩
+    · rw [hout name hmem] at hv
+      simp [Pattern.mapGet] at hv
+
+theorem group_exact' {pattern : Str} {id : Nat} {group : Str} {par : Bool} {root' : Node}
+    {toks : List Str} {f : Found}
+    (h : addHandlerAt Node.empty pattern id group par = (root', .ok ()))
+    (hm : matchNode root' toks 0 0 = some f) :
+    f.mountIdx = 0 ∧ ∃ reg, f.node.hs = some reg ∧ reg.id = id ∧
+      (if par then reg.group = some [] else parseGroup group pattern = .ok reg.group) := by
+  obtain ⟨g, hg, hmi, hnode, _, _⟩ := addHandlerAt_empty_found h hm
+  exact ⟨hmi, ⟨id, g⟩, by simp [hnode], rfl, hg⟩
+
+
+/-! ## the invariant behind `lookup_never_panics` -/
+
+/-- a node at depth `d`: not a mount point, and every token index it stores is `< d` -/
+def NodeOK (x : Node) (d : Nat) : Prop :=
+  x.mounted = false ∧ (∀ pp ∈ x.params, pp.idx < d) ∧
+  (∀ reg, x.hs = some reg → ∀ parts, reg.group = some parts → ∀ i, GPart.idx i ∈ parts → i < d)
+
+/-- every node below `n` (which is at depth `d`) is `NodeOK` at its depth -/
+def Good (n : Node) (d : Nat) : Prop :=
+  ∀ pat x, getAt n pat = some x → NodeOK x (d + pat.length)
+
+theorem NodeOK.mono {x : Node} {d d' : Nat} (h : NodeOK x d) (hd : d ≤ d') : NodeOK x d' :=
+  ⟨h.1, fun pp hpp => Nat.lt_of_lt_of_le (h.2.1 pp hpp) hd,
+   fun reg hr parts hp i hi => Nat.lt_of_lt_of_le (h.2.2 reg hr parts hp i hi) hd⟩
+
+theorem Good_iff (n : Node) (d : Nat) :
+    Good n d ↔ NodeOK n d ∧ ∀ e c, child n e = some c → Good c (d + 1) := by
+  constructor
+  · intro h
+    refine ⟨by simpa using h [] n (getAt_nil n), ?_⟩
+    intro e c hc pat x hg
+    have := h (e :: pat) x (by simp [getAt_cons, hc, hg])
+    have e : d + (e :: pat).length = d + 1 + pat.length := by simp; omega
+    rwa [e] at this
+  · rintro ⟨h0, hch⟩ pat x hg
+    cases pat with
+    | nil => simp at hg; subst hg; simpa using h0
+    | cons e r =>
+      rw [getAt_cons] at hg
+      cases hc : child n e with
+      | none => simp [hc] at hg
+      | some c =>
+        simp only [hc, Option.bind_some] at hg
+        have := hch e c hc r x hg
+        have e : d + (e :: r).length = d + 1 + r.length := by simp; omega
+        rwa [e]
+
+theorem Good_empty (d : Nat) : Good Node.empty d := by
+  rw [Good_iff]
+  exact ⟨⟨rfl, by simp, by simp⟩, by simp⟩
+
+theorem fetch_good {α : Type} (k : Node → Bool → List PathParam → Nat → Node × Except FetchErr α) (D : Nat)
+    (hk : ∀ x0 fr ps, NodeOK x0 D → (∀ pp ∈ ps, pp.idx < D) → NodeOK (k x0 fr ps 0).1 D)
+    (hkc : ∀ x0 fr ps mi e, child (k x0 fr ps mi).1 e = child x0 e)
+    (toks : List Str) : ∀ (n : Node) (i : Nat) (ps : List PathParam) (fr : Bool),
+    i + toks.length = D → Good n i → (∀ pp ∈ ps, pp.idx < i) →
+    Good (fetch none k n toks i 0 ps fr).1 i := by
+  induction toks with
+  | nil =>
+    intro n i ps fr hD hg hps
+    simp at hD; subst hD
+    rw [fetch_none_nil]
+    rw [Good_iff] at hg ⊢
+    refine ⟨hk n fr ps hg.1 hps, ?_⟩
+    intro e c hc
+    rw [hkc] at hc
+    exact hg.2 e c hc
+  | cons t rest ih =>
+    intro n i ps fr hD hg hps
+    rw [fetch_none_cons]
+    split
+    · exact hg
+    · rename_i e ps' hcl
+      obtain ⟨_, _, hps', _⟩ := classify_ok hcl
+      have hg' := (Good_iff n i).1 hg
+      have hm : n.mounted = false := hg'.1.1
+      simp only [hm, Bool.false_eq_true, if_false, Nat.sub_zero] at hps' ⊢
+      have hchild : Good ((child n e).getD Node.empty) (i + 1) := by
+        cases hc : child n e with
+        | none => simpa using Good_empty (i + 1)
+        | some c => simpa using hg'.2 e c hc
+      have hps'' : ∀ pp ∈ ps', pp.idx < i + 1 := by
+        intro pp hpp
+        subst hps'
+        simp only [List.mem_append] at hpp
+        rcases hpp with hpp | hpp
+        · exact Nat.lt_succ_of_lt (hps pp hpp)
+        · have := (tokParams_tag hpp).2.2; omega
+      have hr := ih ((child n e).getD Node.empty) (i + 1) ps' (child n e).isNone
+        (by simp at hD; omega) hchild hps''
+      rw [Good_iff]
+      refine ⟨⟨by simpa using hm, by simpa using hg'.1.2.1, by simpa using hg'.1.2.2⟩, ?_⟩
+      intro e' c hc
+      by_cases hee : e' = e
+      · subst hee; simp at hc; subst hc; exact hr
+      · rw [child_setChild_ne _ _ _ _ hee] at hc
+        exact hg'.2 e' c hc
+
+theorem addK_nodeOK (id : Nat) (g : Group) (D : Nat)
+    (hg : ∀ parts, g = some parts → ∀ i, GPart.idx i ∈ parts → i < D)
+    (x0 : Node) (fr : Bool) (ps : List PathParam) (h0 : NodeOK x0 D) (hps : ∀ pp ∈ ps, pp.idx < D) :
+    NodeOK (addK id g x0 fr ps 0).1 D := by
+  unfold addK
+  split
+  · exact h0
+  · split
+    · exact h0
+    · rename_i n' hn
+      rcases setAndValidateParams_ok hn with ⟨rfl, _⟩ | ⟨rfl, _⟩
+      · refine ⟨by simpa using h0.1, by simpa using hps, ?_⟩
+        intro reg hr parts hp i hi
+        simp at hr; subst hr
+        rw [rebase_zero] at hp
+        exact hg parts hp i hi
+      · refine ⟨by simpa using h0.1, by simpa using h0.2.1, ?_⟩
+        intro reg hr parts hp i hi
+        simp at hr; subst hr
+        rw [rebase_zero] at hp
+        exact hg parts hp i hi
+
+theorem listenK_nodeOK (id : Nat) (D : Nat)
+    (x0 : Node) (fr : Bool) (ps : List PathParam) (h0 : NodeOK x0 D) (hps : ∀ pp ∈ ps, pp.idx < D) :
+    NodeOK (listenK id x0 fr ps 0).1 D := by
+  unfold listenK
+  split
+  · exact h0
+  · rename_i n' hn
+    rcases setAndValidateParams_ok hn with ⟨rfl, _⟩ | ⟨rfl, _⟩
+    · exact ⟨by simpa using h0.1, by simpa using hps, by simpa using h0.2.2⟩
+    · exact ⟨by simpa using h0.1, by simpa using h0.2.1, by simpa using h0.2.2⟩
+
+theorem addAt_good (root : Node) (pattern : Str) (id : Nat) (g : Group)
+    (hg : ∀ parts, g = some parts → ∀ i, GPart.idx i ∈ parts → i < (splitPattern pattern).length)
+    (h : Good root 0) : Good (addAt root pattern id g).1 0 := by
+  rw [addAt_eq]
+  split
+  · exact h
+  · exact fetch_good (addK id g) _ (addK_nodeOK id g _ hg) (child_addK id g) _ root 0 [] false
+      (by simp) h (by simp)
+
+theorem addHandlerAt_good (root : Node) (pattern : Str) (id : Nat) (group : Str) (par : Bool)
+    (h : Good root 0) : Good (addHandlerAt root pattern id group par).1 0 := by
+  unfold addHandlerAt
+  split
+  · exact addAt_good root pattern id _ (by simp) h
+  · split
+    · exact h
+    · rename_i g hg
+      apply addAt_good root pattern id g _ h
+      intro parts hp i hi
+      subst hp
+      obtain ⟨name, hn⟩ := parseGroup_idx' hg hi
+      rcases Nat.lt_or_ge i (splitPattern pattern).length with h | h
+      · exact h
+      · rw [List.getElem?_eq_none h] at hn; simp at hn
+
+theorem addListenerAt_good (root : Node) (pattern : Str) (id : Nat)
+    (h : Good root 0) : Good (addListenerAt root pattern id).1 0 := by
+  rw [addListenerAt_eq]
+  exact fetch_good (listenK id) (splitPattern pattern).length (listenK_nodeOK id _) (child_listenK id) _ root 0 [] false
+    (by simp) h (by simp)
+
+
+theorem matchNode_mountIdx (toks : List Str) : ∀ (l : Node) (i mi d : Nat) (f : Found),
+    Good l d → matchNode l toks i mi = some f → f.mountIdx = mi := by
+  induction toks with
+  | nil => intro l i mi d f _ h; simp [matchNode_nil] at h
+  | cons t rest ih =>
+    intro l i mi d f hg h
+    have hg' := (Good_iff l d).1 hg
+    have hm : l.mounted = false := hg'.1.1
+    have step : ∀ e, tryChild (child l e) rest (i + 1) mi = some f → f.mountIdx = mi := by
+      intro e h1
+      obtain ⟨n, hc, h2⟩ := tryChild_some h1
+      rcases h2 with ⟨_, _, rfl⟩ | ⟨_, h2⟩
+      · rfl
+      · exact ih n (i + 1) mi (d + 1) f (hg'.2 e n hc) h2
+    have hcases := matchNode_cons_cases h
+    simp only [hm, Bool.false_eq_true, if_false] at hcases
+    rcases hcases with h1 | ⟨_, h1⟩ | ⟨_, _, w, _, rfl⟩
+    · exact step _ h1
+    · exact step _ h1
+    · rfl
+
+theorem paramValues_isSome (toks : List Str) (mi : Nat) (ps : List PathParam)
+    (h : ∀ pp ∈ ps, pp.idx + mi < toks.length) : ∃ m, paramValues ps toks mi = some m := by
+  unfold paramValues
+  generalize ([] : List (Str × Str)) = acc
+  induction ps generalizing acc with
+  | nil => exact ⟨acc, by simp⟩
+  | cons p r ih =>
+    have hp := h p (by simp)
+    obtain ⟨m, hm⟩ := ih (fun pp hpp => h pp (by simp [hpp])) (Pattern.mapSet acc p.name toks[p.idx + mi])
+    exact ⟨m, by simp [List.foldlM_cons, List.getElem?_eq_getElem hp, hm]⟩
+
+theorem groupToString_isSome (g : Group) (rname : Str) (tokens : List Str)
+    (h : ∀ parts, g = some parts → ∀ i, GPart.idx i ∈ parts → i < tokens.length) :
+    ∃ s, groupToString g rname tokens = some s := by
+  have fold : ∀ (parts : List GPart) (acc : Str), (∀ i, GPart.idx i ∈ parts → i < tokens.length) →
+      ∃ s, parts.foldlM (fun acc gp => match gp with
+        | .str s => some (acc ++ s)
+        | .idx i => (tokens[i]?).map (acc ++ ·)) acc = some s := by
+    intro parts
+    induction parts with
+    | nil => intro acc _; exact ⟨acc, by simp⟩
+    | cons p r ih =>
+      intro acc hp
+      cases p with
+      | str s =>
+        obtain ⟨s', hs'⟩ := ih (acc ++ s) (fun i hi => hp i (by simp [hi]))
+        exact ⟨s', by simp [List.foldlM_cons, hs']⟩
+      | idx i =>
+        have hi := hp i (by simp)
+        obtain ⟨s', hs'⟩ := ih (acc ++ tokens[i]) (fun i hi => hp i (by simp [hi]))
+        exact ⟨s', by simp [List.foldlM_cons, List.getElem?_eq_getElem hi, hs']⟩
+  unfold groupToString
+  split
+  · exact ⟨_, rfl⟩
+  · exact ⟨_, rfl⟩
+  · exact ⟨_, rfl⟩
+  · rename_i parts _ _
+    exact fold parts [] (h parts rfl)
+
+/-- `GetHandler` does not panic on a tree satisfying the invariant -/
+theorem getHandler_ne_panic (root : Node) (hg : Good root 0) (path rname : Str) :
+    getHandler path root rname ≠ .panic := by
+  unfold getHandler
+  simp only
+  split
+  · simp
+  · rename_i subrname _
+    split
+    · -- the root node
+      split
+      · simp
+      · rename_i h hh
+        have hroot : NodeOK root 0 := ((Good_iff root 0).1 hg).1
+        obtain ⟨s, hs⟩ := groupToString_isSome h.group rname []
+          (fun parts hp i hi => by have := hroot.2.2 h hh parts hp i hi; omega)
+        simp [hs]
+    · split
+      · simp
+      · rename_i f hf
+        split
+        · simp
+        · rename_i h hh
+          obtain ⟨pat, hpat, hm⟩ := matchNode_sound _ root 0 0 f hf
+          have hlen := EMatch_length hm
+          have hok : NodeOK f.node (splitDots subrname).length :=
+            (hg pat f.node hpat).mono (by omega)
+          have hmi : f.mountIdx = 0 := matchNode_mountIdx _ root 0 0 0 f hg hf
+          obtain ⟨ps, hps⟩ := paramValues_isSome (splitDots subrname) f.mountIdx f.node.params
+            (fun pp hpp => by have := hok.2.1 pp hpp; omega)
+          obtain ⟨s, hs⟩ := groupToString_isSome h.group rname ((splitDots subrname).drop f.mountIdx)
+            (fun parts hp i hi => by have := hok.2.2 h hh parts hp i hi; simp [hmi]; omega)
+          simp [hps, hs]
+
 
 end GoRes.Mux
